@@ -65,7 +65,11 @@ DeliverSnapshot ==
 Touch == /\ \E i \in ITEMS : last' = <<Msg(i, -1, 0)>>
          /\ UNCHANGED <<held, delivered>>
 
-Next == DeliverOne \/ DeliverSnapshot \/ Touch
+\* the state that holds the items is stored and restored (serialised and read back): nothing changes
+Persist == /\ last' = <<>>
+           /\ UNCHANGED <<held, delivered>>
+
+Next == DeliverOne \/ DeliverSnapshot \/ Touch \/ Persist
 Spec == Init /\ [][Next]_vars
 
 (***************************************************************************)
